@@ -25,12 +25,21 @@ pub enum Op {
     Announce { peer: u8, h: u8 },
     /// routing timer tick (2 s): selection round
     Tick,
-    /// the oldest in-flight fetch of the peer completes with the block
-    FetchOk { peer: u8 },
+    /// an in-flight fetch of the peer completes with the block: the oldest one (which = 0), or the
+    /// which-th (fetches complete in any order)
+    FetchOk {
+        peer: u8,
+        #[serde(default)]
+        which: u8,
+    },
     /// the oldest in-flight fetch of the peer fails
     FetchFail { peer: u8 },
     /// block #h arrives by another route (added directly) and the router is told
     Updated { h: u8 },
+    /// the consensus thread asks the router for block #h without naming a peer
+    /// (RoutingEvent::BlockFetchRequest(0, ..): a missing parent of a block that did not come from a
+    /// peer); only if the node lacks the block
+    ParentWanted { h: u8 },
 }
 
 #[derive(Debug, Clone, Serialize, Deserialize, PartialEq, Eq, Hash)]
@@ -107,7 +116,7 @@ pub fn run_case(case: &Case, uni: &Universe) -> (Vec<(String, String)>, Info) {
     let closing_from = ops.len();
     for _ in 0..(nh * npeers as usize + 4) {
         for p in 1..=npeers {
-            ops.push(Op::FetchOk { peer: p as u8 });
+            ops.push(Op::FetchOk { peer: p as u8, which: 0 });
         }
         ops.push(Op::Tick);
     }
@@ -131,14 +140,14 @@ pub fn run_case(case: &Case, uni: &Universe) -> (Vec<(String, String)>, Info) {
                 clock.fetch_add(2_000, Ordering::SeqCst);
                 n.routing_timer(2_000)
             }
-            Op::FetchOk { peer } => {
+            Op::FetchOk { peer, which } => {
                 opname = "fetch_ok";
                 let p = 1 + (peer as u64 % npeers);
                 let q = in_flight.entry(p).or_default();
                 if q.is_empty() {
                     continue;
                 }
-                let (h, id) = q.remove(0);
+                let (h, id) = q.remove(which as usize % q.len());
                 info.completions += 1;
                 delivered_from = Some(p);
                 let buf = block_bytes(by_hash[&h]);
@@ -176,6 +185,17 @@ pub fn run_case(case: &Case, uni: &Universe) -> (Vec<(String, String)>, Info) {
                 info.failures += 1;
                 ever_failed.insert((p, h));
                 n.net_event(NetworkEvent::BlockFetchFailed { block_hash: h, block_id: id, peer_index: p })
+            }
+            Op::ParentWanted { h } => {
+                opname = "parent_wanted";
+                let b = &uni.blocks[1 + (h as usize % nh)];
+                if has(&n, &b.hash) {
+                    continue;
+                }
+                match catch(|| block_on(n.rt_process(RoutingEvent::BlockFetchRequest(0, b.hash, b.id)))) {
+                    crate::ctx::Outcome::Returned(_) => HandlerOutcome::Ok,
+                    crate::ctx::Outcome::Panicked(a, b) => HandlerOutcome::Panicked(a, b),
+                }
             }
             Op::Updated { h } => {
                 opname = "updated";
@@ -389,7 +409,7 @@ fn all_ops(peers: u8, hashes: u8) -> Vec<Op> {
         for h in 0..hashes {
             v.push(Op::Announce { peer: p, h });
         }
-        v.push(Op::FetchOk { peer: p });
+        v.push(Op::FetchOk { peer: p, which: 0 });
         v.push(Op::FetchFail { peer: p });
     }
     for h in 0..hashes {
@@ -402,7 +422,8 @@ pub fn arb_op() -> impl Strategy<Value = Op> {
     prop_oneof![
         5 => (0u8..3, 0u8..8).prop_map(|(peer, h)| Op::Announce { peer, h }),
         2 => Just(Op::Tick),
-        3 => (0u8..3).prop_map(|peer| Op::FetchOk { peer }),
+        3 => (0u8..3, prop_oneof![2 => Just(0u8), 1 => 1u8..4]).prop_map(|(peer, which)| Op::FetchOk { peer, which }),
+        1 => (0u8..8).prop_map(|h| Op::ParentWanted { h }),
         2 => (0u8..3).prop_map(|peer| Op::FetchFail { peer }),
         1 => (0u8..8).prop_map(|h| Op::Updated { h }),
     ]
